@@ -88,10 +88,16 @@ func run(c Case) (outcome, error) {
 		if st.T.Rooted() != wasRooted {
 			oc.rootedChange = true
 		}
-		if len(st.T.Tips()) < 3 {
+		if nt := len(st.T.Tips()); nt < 3 {
 			// the removal of a non-monophyletic outgroup takes the whole clade of its common
-			// ancestor: fewer than three tips can remain, which ends the history (the
-			// operations are only required to cope with trees on >= 3 tips)
+			// ancestor, and a pruning may keep two tips: fewer than three tips can remain,
+			// which ends the history (the operations are only required to cope with trees on
+			// >= 3 tips). A two-tip result that was reported as a success is still judged.
+			if nt == 2 {
+				if serr := gt.Structural(st.T); serr != nil {
+					return oc, fmt.Errorf("after step %d (%s) on %s: two tips remain, reported as a success: %v", i, op.Kind, clip(before), serr)
+				}
+			}
 			oc.applied--
 			break
 		}
